@@ -6,6 +6,10 @@ Row/RowParse.v, Cell/Cell.v, Io/XlsxCell.v mirror these two only).
   rekey_blank_keeps   RowParser.parse_row, re-keying of the headers: when two headers of a row denote the same
                       field (`webhook.body` and `message_text` in a call_webhook row) a BLANK cell does not
                       overwrite what an earlier one said / the last cell wins whatever it holds
+  xlsx_export_text_cells
+                      RowDataSheet.export(filename, "xlsx") + XLSXSheetReader: a cell text of two or more characters
+                      that starts with "=" comes back as written (the export forces text cells) / comes back empty
+                      (openpyxl stores it as a formula, which has no value when the file is read back)
 """
 from gen_tables import Refuse, coq_bool
 
@@ -91,6 +95,66 @@ def _probe_rekey(notes):
     return keeps
 
 
+# --------------------------------------------------------------------------------------------------------
+def xlsx_cells_roundtrip(texts):
+    """texts -> what RowDataSheet.export(..., "xlsx") + XLSXSheetReader give back for each (one row per text, next to
+    an id cell so that no row is empty).  Used by the probe below and by harness/c07.py."""
+    import os
+    import shutil
+    import tempfile
+
+    from rpft.parsers.common.cellparser import CellParser
+    from rpft.parsers.common.rowdatasheet import RowDataSheet
+    from rpft.parsers.common.rowparser import ParserModel, RowParser
+    from rpft.parsers.sheets import XLSXSheetReader
+
+    class OneCell(ParserModel):
+        id: str = ""
+        text: str = ""
+
+    rows = [OneCell(id=f"r{i}", text=t) for i, t in enumerate(texts)]
+    d = tempfile.mkdtemp(prefix="rpftxlsx")
+    try:
+        fn = os.path.join(d, "cells.xlsx")
+        RowDataSheet(RowParser(OneCell, CellParser()), rows).export(fn, "xlsx")
+        table = list(XLSXSheetReader(fn).sheets.values())[0].table
+        hs = list(table.headers)
+        if "id" not in hs:
+            raise Refuse(f"xlsx probe: headers read back are {hs!r}")
+        got = {}
+        for r in table:
+            rd = dict(zip(hs, r))
+            got[rd["id"]] = rd.get("text", "")
+        return [got.get(f"r{i}") for i in range(len(texts))]
+    finally:
+        shutil.rmtree(d, ignore_errors=True)
+
+
+def _probe_xlsx(notes):
+    plain = ["a", "=", "a=b", "'=x", "#N/A", "+1", "-1", "@x", "x =y", "1.50", "TRUE", "é|;\\", "a\nb"]
+    formulas = ["=2+2 is four", "==", "=SUM(A1)", "=a", "= x", "=é"]
+    try:
+        back = xlsx_cells_roundtrip(plain + formulas)
+    except Refuse:
+        raise
+    except Exception as e:
+        raise Refuse(f"xlsx probe: RowDataSheet.export / XLSXSheetReader fail on plain texts: {type(e).__name__}: {e}")
+    for t, b in zip(plain, back):
+        if b != t:
+            raise Refuse(f"xlsx probe: the cell text {t!r} (not a formula text) comes back as {b!r}")
+    fb = back[len(plain):]
+    if all(b == t for t, b in zip(formulas, fb)):
+        verdict = True
+    elif all(b == "" for b in fb):
+        verdict = False
+    else:
+        raise Refuse(f"xlsx probe: texts starting with '=' come back as {list(zip(formulas, fb))!r}: neither all kept nor all empty")
+    notes.append(f"xlsx_export_text_cells={verdict}: PROBED — {len(plain)} plain texts and {len(formulas)} texts of the form "
+                 "'=…' through RowDataSheet.export(xlsx) + XLSXSheetReader (all '=…' texts kept: True; all empty: False; "
+                 "anything else, or a plain text changed: refused)")
+    return verdict
+
+
 def tables_rowfix(out, notes):
     out.append("")
     out.append("(* ---- row codec repairs (translator/tables_rowfix.py) ---- *)")
@@ -101,6 +165,13 @@ def tables_rowfix(out, notes):
     except Exception as e:
         raise Refuse(f"rekey probe failed: {type(e).__name__}: {e}")
     out.append(f"Definition rekey_blank_keeps : bool := {coq_bool(keeps)}.")
+    try:
+        text_cells = _probe_xlsx(notes)
+    except Refuse:
+        raise
+    except Exception as e:
+        raise Refuse(f"xlsx probe failed: {type(e).__name__}: {e}")
+    out.append(f"Definition xlsx_export_text_cells : bool := {coq_bool(text_cells)}.")
 
 
 GENERATORS = [tables_rowfix]
